@@ -9,7 +9,7 @@ EIO, ENOSPC, EACCES, EMFILE, EROFS, EEXIST, EPERM, ENOENT, EINTR, ENOSYS, EXDEV,
     5, 28, 13, 24, 30, 17, 1, 2, 4, 38, 18, 95, 22, 12
 
 ERRNOS = {
-    "openat": [EACCES, EMFILE, ENOSPC, EROFS],
+    "openat": [EACCES, EMFILE, ENOSPC, EROFS, ENOENT],      # (ENOENT: the entry has vanished since it was listed)
     "statx": [EIO, EACCES],
     "newfstatat": [EIO, EACCES],
     "ftruncate": [ENOSPC, EIO],
